@@ -10,7 +10,7 @@
           (per cut: ((ci pi) ((id c p) ...) reopen))  )
      (-1 50) = the executable invariant inv_b fails on the final state although the index passes checkIndex
      reopen = (1 class) | (0 items hidden offset tail head headbytes flush ((id len) ...) (retrieve lo..hi)) *)
-From GV Require Import Lib.Sx Storage.FreezerTable.
+From GV Require Import Lib.Sx Storage.FreezerTable Storage.Freezer.
 Local Open Scope N_scope.
 
 Definition codec := list (list N * list N).
@@ -81,9 +81,52 @@ Definition obs_cut (maxsz : N) (dec : list N -> option (list N)) (t : table) (c 
        SL (map (fun kf => SL [sn (fst kf); snat (fst (cd (fst kf))); snat (snd (cd (fst kf)))]) (t_data t));
        obs_reopen dec (crash_reopen true t ci cd (c_m c)) ].
 
+(* ---------- freezer-level cases (kind 9) ----------
+   case  (9 maxsz ntables (op ...) (crash ...))
+     op    (0 n size_0 size_1 ...) ModifyAncients appending n items to every table (table k: size_(k mod #sizes) bytes)
+           | (1 n) TruncateHead | (2 n) TruncateTail | (3) SyncAncient
+     crash (sel_0 sel_1 ...)  per table: 0 as on disk, 1 as at the last SyncAncient, 2 files of then + metadata of now
+   obs   (9 (op error classes) (per crash: (1 class) | (0 head tail ((items hidden) ...) ((retrieve lo..head) ...)))) *)
+Definition sx_fop (s : sx) : option fop :=
+  match s with
+  | SL (SI 0%Z :: n :: sizes) =>
+      match sx_nat n, opt_map sx_nat sizes with
+      | Some n, Some sz => Some (FAppend n sz)
+      | _, _ => None
+      end
+  | SL [SI 1%Z; n] => match sx_N n with Some n => Some (FTruncHead n) | None => None end
+  | SL [SI 2%Z; n] => match sx_N n with Some n => Some (FTruncTail n) | None => None end
+  | SL [SI 3%Z] => Some FSync
+  | _ => None
+  end.
+
+Definition obs_freezer (r : res freezer) : sx :=
+  match r with
+  | Err c => SL [SI 1%Z; sn c]
+  | Ok f =>
+      let lo := N.max (fz_tail f) 1 - 1 in
+      SL [ SI 0%Z; sn (fz_head f); sn (fz_tail f);
+           SL (map (fun t => SL [sn (t_items t); sn (t_hidden t)]) (fz_tables f));
+           SL (map (fun t => SL (map (fun i => sres SB (retrieve raw_decode t i)) (range_incl lo (fz_head f))))
+                   (fz_tables f)) ]
+  end.
+
+Definition run_freezer (mx nt : sx) (ops crashes : list sx) : sx :=
+  match sx_N mx, sx_nat nt, opt_map sx_fop ops, opt_map (sx_list_of sx_N) crashes with
+  | Some maxsz, Some nt, Some ops, Some crashes =>
+      match fz_open true (repeat (f_empty, [], None) nt) with
+      | Err e => SErr (Z.of_N e + 200)
+      | Ok f0 =>
+          let '(f, snap, codes) := fz_run maxsz f0 (fz_tables f0) ops in
+          SL [ SI 9%Z; SL (map sn codes);
+               SL (map (fun sels => obs_freezer (fz_open true (crash_tables 0 sels snap (fz_tables f)))) crashes) ]
+      end
+  | _, _, _, _ => SErr 9
+  end.
+
 Definition C24_run (c : sx) : sx :=
   match c with
-  | SL (SI 9%Z :: _) => SL [SI 9%Z]     (* freezer-level case: Go oracle only, no model *)
+  | SL [SI 9%Z; mx; nt; SL ops; SL crashes] => run_freezer mx nt ops crashes
   | SL (SI 8%Z :: _) => SL [SI 8%Z]     (* torn-metadata case: Go oracle only, no model *)
   | SL [sn_; mx; SL ops; SL cuts; SL pairs] =>
       match sx_N mx, opt_map sx_op ops, opt_map sx_cut cuts, opt_map sx_pair pairs with
